@@ -106,19 +106,19 @@ var (
 
 // Res is one observed output of the implementation.
 type Res struct {
-	K   string   `json:"k"` // t b z p d panic
-	T   *Inst    `json:"t,omitempty"`
-	B   bool     `json:"b,omitempty"`
-	Z   int64    `json:"z,omitempty"`
-	P   *[2]Inst `json:"p,omitempty"`
+	K   string    `json:"k"` // t b z p d panic
+	T   *Inst     `json:"t,omitempty"`
+	B   bool      `json:"b,omitempty"`
+	Z   int64     `json:"z,omitempty"`
+	P   *[2]Inst  `json:"p,omitempty"`
 	D   *[7]int64 `json:"d,omitempty"` // year month day hour min sec weekday
-	Err string   `json:"err,omitempty"`
+	Err string    `json:"err,omitempty"`
 }
 
-func rT(t time.Time) Res       { i := instOf(t); return Res{K: "t", T: &i} }
-func rB(b bool) Res            { return Res{K: "b", B: b} }
-func rZ(z int64) Res           { return Res{K: "z", Z: z} }
-func rP(a, b time.Time) Res    { p := [2]Inst{instOf(a), instOf(b)}; return Res{K: "p", P: &p} }
+func rT(t time.Time) Res    { i := instOf(t); return Res{K: "t", T: &i} }
+func rB(b bool) Res         { return Res{K: "b", B: b} }
+func rZ(z int64) Res        { return Res{K: "z", Z: z} }
+func rP(a, b time.Time) Res { p := [2]Inst{instOf(a), instOf(b)}; return Res{K: "p", P: &p} }
 func (r Res) time() (Inst, bool) {
 	if r.K == "t" && r.T != nil {
 		return *r.T, true
